@@ -563,7 +563,9 @@ class _parser:
             # Convert dateobj to utc time to compare with self.now
             try:
                 tz = tz or get_timezone_from_tz_string(self.settings.TIMEZONE)
-                tz_offset = tz.utcoffset(dateobj)
+                # dateobj may have been made offset-aware above only to be comparable
+                # with an aware RELATIVE_BASE; tz-database zones need the naive wall time
+                tz_offset = tz.utcoffset(original_dateobj)
             except (pytz.UnknownTimeZoneError, pytz.NonExistentTimeError):
                 tz_offset = timedelta(hours=0)
 
